@@ -2,7 +2,7 @@
 import ast
 import itertools
 
-from .common import (ctx, family, returns, calls_in_ctx, reach_from_succ, site, srcs_text, truthy_label)
+from .common import (ctx, family, returns, calls_in_ctx, reach_from_succ, site, srcs_text, truthy_label, resolve_call)
 from ..flow import callee_attr
 from ..loader import AnalysisError, norm
 from ..verdict import EnumDomain, BoolDomain, enum_members, accepting_set, pruned_edges, member_of
@@ -374,6 +374,71 @@ def run(R):
                             R.fail('C05.PRV.1', inst, fq, n.ast, f'the stored validator is {srcs_text(srcs)}, not the validator argument',
                                    site(ax, n.ast))
         R.need(found, f'{fq}: no assignment to <node>.validator')
+    # the validator is handed on unchanged along every internal call chain (route -> register -> set_interest_filter, express -> ...)
+    R.ob('C05.PRV.2', 'wherever a function that was given a validator calls another library function that takes one, it passes its own on')
+    nsites = 0
+    for q, f in sorted(P.funcs.items()):
+        if f.mod not in ('ndn.app', 'ndn.appv2') or isinstance(f.node, ast.Lambda):
+            continue
+        cx = ctx(R, q)
+        # is a `validator` in scope (own parameter, closure parameter, loop variable of the auto-registration list)?
+        def in_scope(c_):
+            while c_ is not None:
+                if any(a.arg == 'validator' for a in c_.f.node.args.args + c_.f.node.args.kwonlyargs):
+                    return True
+                c_ = c_.parent
+            return False
+        loopvar = any(n.kind == 'for' and any(isinstance(x, ast.Name) and x.id == 'validator' for x in ast.walk(n.ast.target)) for n in cx.cfg.nodes)
+        if not in_scope(cx) and not loopvar:
+            continue
+        for n in cx.cfg.nodes:
+            for c in n.calls():
+                gq = resolve_call(P, cx, c)
+                if not gq or gq not in P.funcs or gq == q:
+                    continue
+                g = P.funcs[gq].node
+                if isinstance(g, ast.Lambda):
+                    continue
+                gparams = [a.arg for a in g.args.args]
+                if gparams and gparams[0] in ('self', 'cls') and isinstance(c.func, ast.Attribute):
+                    gparams = gparams[1:]
+                kwonly = [a.arg for a in g.args.kwonlyargs]
+                if 'validator' not in gparams + kwonly:
+                    continue
+                # a route's Interest validator and the Data validator of an expressed Interest are different things
+
+                def role(qq):
+                    nm = qq.split('.<')[0].rsplit('.', 1)[-1]
+                    return 'data' if nm.startswith('express') or nm in ('_wait_for_data', 'append_interest') else 'interest'
+                if role(q) != role(gq):
+                    continue
+                bound = None
+                if 'validator' in gparams and gparams.index('validator') < len(c.args):
+                    bound = c.args[gparams.index('validator')]
+                for k in c.keywords:
+                    if k.arg == 'validator':
+                        bound = k.value
+                    if k.arg is None:
+                        bound = bound or k.value      # **kwargs: cannot tell, accept
+                nsites += 1
+                inst = f'{q} -> {gq.rsplit(".", 1)[-1]} :: validator handed on'
+                if bound is None:
+                    R.fail('C05.PRV.2', inst, q, c, f'`{norm(c)[:90]}` does not pass the validator on: {gq.rsplit(".", 1)[-1]} falls back to its default '
+                           '(no / application-wide validator) for a route or Interest that was given its own', site(cx, c))
+                    continue
+                srcs = cx.sources(n, bound)
+                okv = bool(srcs) and all((s_.kind == 'param' and s_.expr == 'validator') or
+                                         (s_.kind in ('iter', 'unpack') and 'validator' in ast.unparse(n.ast) if hasattr(n, 'ast') else False) or
+                                         (s_.kind == 'expr' and 'validator' in s_.text()) for s_ in srcs)
+                if okv or ast.unparse(bound) == 'validator':
+                    R.ok('C05.PRV.2', inst, site(cx, c))
+                else:
+                    R.fail('C05.PRV.2', inst, q, c, f'`{norm(c)[:90]}` passes {srcs_text(srcs)} as the validator instead of the one supplied', site(cx, c))
+    R.need(nsites >= 6, f'only {nsites} validator hand-over call sites found (8 confirmed by hand)')
+    from .c03 import deadline_rule
+    R.ob('C05.PRV.3', 'the wait that the validator must beat is bounded by the deadline fixed when the Interest was expressed (not restarted at the first await)')
+    for app_ in ('ndn.appv2.NDNApp', 'ndn.app.NDNApp'):
+        deadline_rule(R, 'C05.PRV.3', app_)
     R.assumptions += ['validators are user callbacks; their own correctness is out of scope',
                       'Enum members of ValidResult are all truthy (plain Enum)']
 
